@@ -403,6 +403,8 @@ def _fork_worker(args):
 
 
 def c16(run):
+    import framework as _fw
+    _fw.environment_projection(run)
     import hashlib
     import multiprocessing
     import os
